@@ -1,6 +1,7 @@
 import ZmqVerif.Lemmas.WorldMaps
 import ZmqVerif.Lemmas.WorldSendStart
 import ZmqVerif.Lemmas.WorldSend
+import ZmqVerif.Lemmas.WorldRotation
 /-!
 # C10 — round-robin senders deliver each message to exactly one peer, in rotation
 
@@ -178,5 +179,52 @@ theorem C10_world_rr_start (fuel : Nat) (w : World) (sid : Nat) (m : Msg) (s : S
     | _, .ready (.err _) => True
     | _, _ => False :=
   sendRRStart_spec fuel w sid m s hs w' f' o h
+
+
+/-! ### strict rotation, against the socket's rotation queue -/
+
+/-- **Who is chosen** by the first poll of a round-robin send (`FirstLive s k rest`: `k` is the first entry of the
+rotation queue whose peer is still registered; what precedes it has vanished and is dropped, what follows it — `rest` —
+stays in order): still writing ⇒ the future writes to `k` and the queue holds `rest`; done ⇒ the queue is `rest` with `k`
+appended; the message is handed back only if NO entry is registered. -/
+theorem C10_world_rr_choice (fuel : Nat) (w : World) (sid : Nat) (m : Msg) (s : Socket) (hs : getSock w sid = some s)
+    (w' : World) (f' : FutSt) (o : POut) (h : sendRRPoll fuel w sid m none = (w', f', o)) :
+    (o = .pending → ∃ k st' rest, f' = .sendRR sid m (some (k, st')) ∧ FirstLive s k rest ∧
+        ∃ s', getSock w' sid = some s' ∧ s'.rr = rest) ∧
+    (o = .ready .okUnit → ∃ k rest, FirstLive s k rest ∧ ∃ s', getSock w' sid = some s' ∧ s'.rr = rest ++ [k]) ∧
+    (∀ m', o = .ready (.errReturn m') → ∀ j ∈ s.rr, ilookup s.peers j = none) :=
+  sendRRStart_choice fuel w sid m s hs w' f' o h
+
+/-- … the later polls of that send leave the queue alone while `Pending` and append the chosen peer when the send
+completes (so a peer is never in the queue twice, and is out of it exactly while a message is being written to it) -/
+theorem C10_world_rr_later_polls (fuel : Nat) (w : World) (sid : Nat) (m : Msg) (k : Ident) (st : SendSt) (s : Socket)
+    (hs : getSock w sid = some s) (w' : World) (f' : FutSt) (o : POut)
+    (h : sendRRPoll (fuel + 1) w sid m (some (k, st)) = (w', f', o)) :
+    (o = .pending → (∃ st', f' = .sendRR sid m (some (k, st'))) ∧ ∃ s', getSock w' sid = some s' ∧ s'.rr = s.rr) ∧
+    (o = .ready .okUnit → ∃ s', getSock w' sid = some s' ∧ s'.rr = s.rr ++ [k]) ∧
+    (∀ m', o ≠ .ready (.errReturn m')) :=
+  sendRRPoll_some_rr fuel w sid m k st s hs w' f' o h
+
+/-- **One send = one step of the rotation** (`rrNext`, about which `C10_full_round` / `_rotation_distinct` speak): with
+every entry of the queue registered, a send that completes at once has written the WHOLE encoding to the connection of
+the queue's HEAD, to no other connection, and the queue afterwards is `rrNext` of the queue before. -/
+theorem C10_world_strict_rotation (fuel : Nat) (w : World) (sid : Nat) (m : Msg) (s : Socket) (hs : getSock w sid = some s)
+    (hlive : ∀ j ∈ s.rr, (ilookup s.peers j).isSome)
+    (w' : World) (f' : FutSt) (h : sendRRPoll fuel w sid m none = (w', f', .ready .okUnit)) :
+    ∃ k wr s', ilookup s.peers k = some wr ∧ getSock w' sid = some s' ∧ rrNext s.rr = some (k, s'.rr) ∧
+      (wOf w'.pipes wr.pipe).wire = outOf w.pipes wr ++ encodeMsg m ∧
+      ∀ j, j ≠ wr.pipe → wOf w'.pipes j = wOf w.pipes j := by
+  obtain ⟨k, rest, wr, ⟨stale, h1, h2, _⟩, h4, h5, h6, s', h7, h8⟩ := sendRRStart_done_who fuel w sid m s hs w' f' h
+  have hst : stale = [] := by
+    cases stale with
+    | nil => rfl
+    | cons j js =>
+      have := hlive j (by rw [h1]; simp)
+      rw [h2 j (by simp)] at this
+      cases this
+  subst hst
+  refine ⟨k, wr, s', h4, h7, ?_, h5, h6⟩
+  simp only [List.nil_append] at h1
+  rw [h1, h8]; rfl
 
 end Zmq.C10
